@@ -277,6 +277,10 @@ func (w *World) pkgLevel(name string, pkg *ssa.Package, v *FnVC, env *Env) (Term
 		if g, ok := pkg.Members[name].(*ssa.Global); ok {
 			return Term{envGet(v, env, v.globalKey(g)), x.Type()}, true
 		}
+	case *types.Func:
+		if f, ok := pkg.Members[name].(*ssa.Function); ok {
+			return Term{w.funcRef(f), x.Type()}, true
+		}
 	}
 	return Term{}, false
 }
